@@ -360,8 +360,8 @@ def snapshot_oracle(run, out, prop):
                     return n
                 state = nxt[key][1]
                 stored = state.get('n') if nme in COUNTERS else state.get('v')
-                if state.get('_placeholder') and nme in COUNTERS:
-                    stored = val        # (revision packed away since: its state is not known)
+                if state.get('_placeholder') and (nme in COUNTERS or stored is None):
+                    stored = val        # (revision packed away since, or written by an undo: its state is not known)
                 if stored != val:
                     out.fail((prop, 'threads-snapshot', 'value-differs-from-revision'),
                              'thread %s read %s=%r under serial %r, that revision holds %r' % (th, nme, val, serial, stored))
